@@ -270,6 +270,7 @@ static void zero_check(Block* b, const uint8_t* p, size_t from, size_t to, const
 
 static void do_alloc(const Op& op) {
   int s = op.slot;
+  if ((op.flags & OPF_WAIT) && s >= 0 && s < (int)H.slots.size()) while (H.slots[s] != nullptr || g_busy[s]) { if (!sched_wait(0x51070000ull + (uint64_t)s)) break; }
   if (s < 0 || s >= (int)H.slots.size() || H.slots[s] != nullptr || g_busy[s]) { H.ops_noop++; return; }
   int mh = heap_for_alloc(op);
   switch (op.code) {   // entry points without a per-heap variant always use the default heap
@@ -312,6 +313,7 @@ static void do_alloc(const Op& op) {
   if (op.code == OP_strdup || op.code == OP_strndup) { /* content checked in call_alloc */ }
   if (!(op.flags & OPF_NO_FILL)) block_fill(b);
   H.slots[s] = b;
+  if (op.flags & OPF_WAIT) sched_notify(0x51070000ull + (uint64_t)s);
 }
 
 // ---------------------------------------------------------------------------------
@@ -323,8 +325,10 @@ static Block* take_slot(int s) {
 }
 
 static void do_free(const Op& op) {
+  if ((op.flags & OPF_WAIT) && op.slot >= 0 && op.slot < (int)H.slots.size()) while (H.slots[op.slot] == nullptr) { if (!sched_wait(0x51070000ull + (uint64_t)op.slot)) break; }
   Block* b = take_slot(op.slot);
   if (!b) { H.ops_noop++; return; }
+  if (op.flags & OPF_WAIT) sched_notify(0x51070000ull + (uint64_t)op.slot);
   // a block must be released within its own sub-process' threads? (no: any thread may free); verify contents first
   block_verify(b, "at free");
   model_remove(b);
@@ -427,7 +431,7 @@ static void do_realloc(const Op& op) {
     }
     return;
   }
-  T->alloc_ok = true;
+  if (q != p) T->alloc_ok = true;     // an in-place result does not show that this thread's heap exists
   sched_set_passthrough(true);
   size_t usable = mi_usable_size(q);
   sched_set_passthrough(false);
